@@ -490,7 +490,7 @@ func genBuildPkt(r *Rng, small bool) (*dhcpv4.DHCPv4, []string) {
 
 var dslPool = []string{"example.com", "a.example.com", "corp.example.org", "x", "sub.a.example.com", "local", "", "b.c.d.e.f"}
 
-func genLabels(r *Rng) []string {
+func genLabelsV4B(r *Rng) []string {
 	n := r.Range(0, 3)
 	var out []string
 	for i := 0; i < n; i++ {
@@ -599,7 +599,7 @@ func genMod(r *Rng, kind int) string {
 	case 23:
 		return fmt.Sprintf("v6only/%d", r.Pick([]int{0, 1, 300, 4294967295, r.Intn(1 << 32)}))
 	case 24:
-		return dslToken(genLabels(r))
+		return dslToken(genLabelsV4B(r))
 	case 25:
 		return fmt.Sprintf("generic/%d/%s", genCode(r), hx(genSmallVal(r)))
 	case 26:
